@@ -389,7 +389,7 @@ class Check:
     def oblige(self, name, kind, ok, detail=""):
         self.obligations.append({"name": name, "kind": kind, "ok": bool(ok), "detail": str(detail)[:2000]})
         if not ok:
-            log("OBLIGATION FAILED: %s [%s] %s" % (name, kind, str(detail)[:600]))
+            log("OBLIGATION FAILED: %s [%s] %s" % (name, kind, str(detail)[:400]))
         return ok
 
     def broken(self):
@@ -410,7 +410,7 @@ class Check:
         """A concrete input/schedule/history on which the *property* fails on the implementation
         (or on the model instantiated with what the code now says)."""
         self.counterexamples.append({"key": key, "what": what, "replay": replay})
-        log("COUNTEREXAMPLE key=%s: %s" % (key, what))
+        log("COUNTEREXAMPLE key=%s: %s" % (key, str(what)[:400]))
 
     # -- the standard Lean stage ----------------------------------------------------------------
     def lean_stage(self, extra_targets=()):
